@@ -25,6 +25,7 @@ pub uninterp spec fn hm_view(h: HeaderMap) -> Seq<(Seq<char>, Seq<char>)>;
 pub struct HeaderValue { _p: u8 }
 pub uninterp spec fn hv_view(h: HeaderValue) -> Seq<char>;
 #[verifier::external_body]
+#[derive(Debug)]
 pub struct InvalidHeaderValue { _p: u8 }
 /// which strings http::HeaderValue::from_str accepts (its exact byte rule is proved in Kani unit K4)
 pub uninterp spec fn header_value_ok(s: Seq<char>) -> bool;
